@@ -24,7 +24,7 @@ SIM_TIME_UNIT = 'updates / evaluations'
 RULE = ('seeded generation of (specification, decomposition into 1-3 named sub-specifications and 0-3 declared constants incl. '
         'constants used as interval bounds, monitor kind, data, schedule); every update is a checked history; non-trivial = the '
         'inlined output is finite somewhere and not constant; distinct = distinct (operator skeleton, kind, decomposition shape)')
-ASSUMPTIONS = ['both sides are real monitors of the same kind fed the same stream', 'dense-time outputs compared as step functions',
+ASSUMPTIONS = ['both sides are real monitors of the same kind fed the same stream', 'pastified monitors are compared from the horizon on (the warm-up outputs are specified by no property; a declared negative constant is a Constant node, an inlined negative literal a Negate node, and only operator nodes are delayed)', 'dense-time outputs compared as step functions',
                'scenarios whose reference value is undefined (NaN/overflow) are discarded']
 REAL = common.REAL_ALL
 STUBS = common.STUBS_ALL
@@ -205,6 +205,8 @@ def run(sc):
                     bad = 'empty'
                 elif fa:
                     lo, hi = max(fa[0][0], fb[0][0]), min(fa[-1][0], fb[-1][0])
+                    if sc['pastify']:
+                        lo = max(lo, sg.horizon(sc['ast']) * common.DENSE_TICK)      # warm-up outputs are not specified (C03)
                     if fa[0][0] != fb[0][0] or fa[-1][0] != fb[-1][0]:
                         bad = 'span'
                     elif lo <= hi:
@@ -229,6 +231,8 @@ def run(sc):
                         d = M.state_digest(m_)
                         if d:
                             r.states.add(d)
+                    if sc['pastify'] and i < sg.horizon(sc['ast']):
+                        continue      # warm-up of a pastified monitor: outputs before the horizon are not specified (C03)
                     if not eqn(a, b):
                         r.violate('modular-equals-inlined', modular=md, inlined=idesc, data=sc['data'], step=i, got=a, want=b)
                         break
